@@ -6,6 +6,20 @@
 //          "trace":"none"|"templates"|"all","select":true|false,"reuse":false}
 // events: {"e":"Reset","id":N}  {"e":"T",...}  {"e":"S",...}  {"e":"Done","id":N,"status":s,"msg":"..","tree":[...]}
 #include "xsltrec.hpp"
+#include <map>
+#include <xalanc/XSLT/VariablesStack.hpp>
+#include <xalanc/XPath/XalanQName.hpp>
+
+// hook H2: every operation of the engine's variable stack, as {"e":"VS",...} events ("vstack":true in the case)
+static std::string g_vs;
+static std::map<unsigned long, unsigned long> g_vsElems;      // stylesheet element address -> small id (0 = none)
+static unsigned long vsElem(unsigned long p) { if (p == 0) return 0; auto it = g_vsElems.find(p); if (it != g_vsElems.end()) return it->second; const unsigned long k = g_vsElems.size() + 1; g_vsElems[p] = k; return k; }
+static void vsObserver(const char* op, const XalanQName* name, unsigned long a, unsigned long b, unsigned long c, unsigned long size) {
+    std::string n;
+    if (name != nullptr) { n = toUtf8(name->getNamespace()); if (!n.empty()) n += "|"; n += toUtf8(name->getLocalPart()); }
+    g_vs += "{\"e\":\"VS\",\"op\":\"" + std::string(op) + "\",\"n\":" + jstr(n) + ",\"a\":" + std::to_string((std::string(op) == "ef" || std::string(op) == "var") ? vsElem(a) : a) + ",\"b\":" + std::to_string(b) +
+            ",\"c\":" + std::to_string(c) + ",\"size\":" + std::to_string(size) + "}\n";
+}
 
 int main(int argc, char** argv) {
     if (argc < 2) { fprintf(stderr, "usage: %s cases.ndjson\n", argv[0]); return 2; }
@@ -43,7 +57,10 @@ int main(int argc, char** argv) {
                     if (const J* ps = c.get("params")) for (auto& kv : ps->o) xt->setStylesheetParam(fromUtf8(kv.first), fromUtf8(kv.second.s));
                     if (tracer.mode != "none" || tracer.select) xt->addTraceListener(&tracer);
                     XSLTResultTarget target(rec);
+                    g_vs.clear(); g_vsElems.clear();
+                    if (c.boolean("vstack")) VariablesStack::s_verifObserver = &vsObserver;
                     status = xt->transform(*src, ss, target);
+                    VariablesStack::s_verifObserver = nullptr;
                     if (tracer.mode != "none" || tracer.select) xt->removeTraceListener(&tracer);
                     xt->clearStylesheetParams();
                 }
@@ -52,6 +69,7 @@ int main(int argc, char** argv) {
             } catch (const std::exception& e) { status = -101; msg = std::string("std::exception ") + e.what();
             } catch (...) { status = -102; msg = "unknown exception"; }
             fputs(tracer.out.c_str(), stdout);
+            fputs(g_vs.c_str(), stdout);
             std::string done = "{\"e\":\"Done\",\"id\":" + std::to_string(id) + ",\"status\":" + std::to_string(status) + ",\"phase\":" + jstr(phase) +
                                ",\"msg\":" + jstr(msg) + ",\"warn\":" + jstr(warn.str()) + ",\"enddoc\":" + (rec.sawEndDoc ? "true" : "false") + ",\"tree\":" + rec.treeJson() + "}\n";
             fputs(done.c_str(), stdout);
